@@ -696,7 +696,7 @@ def rand_ret(rng, allow_void=True, p_rec=0.0):
 def generate(rng, tier):
     """the generated cases of one run (the corpus is handled by the check)"""
     amax = 8 if tier == "quick" else 10
-    scale = 1 if tier == "quick" else 6
+    scale = 1 if tier == "quick" else 20
     cases = []
     cnt = [0]
 
@@ -814,7 +814,7 @@ def exhaustive_shapes(tier):
     kinds, and every record of <= 3 fields over 6 leaves + the 12 inner records of <= 2 fields
     over {c,i,d}"""
     import itertools
-    n = 4 if tier == "quick" else 5
+    n = 4 if tier == "quick" else 6
     shapes = []
     for k in range(1, n + 1):
         for fs in itertools.product(LEAVES, repeat=k):
